@@ -338,6 +338,9 @@ func sortModel(e *Exec, st *State, call *ast.CallExpr, x ast.Expr) []Term {
 		ln.S, pm.S, pm.S, ln.S, pi.S, pm.S, na.S, e.S.SlArr(s).S, pm.S, na.S), SBool})
 	e.Ctx.Assume(st.PC, Term{fmt.Sprintf("(forall ((i Int)) (! (=> (and (<= 0 i) (< i %s)) (and (<= 0 (select %s i)) (< (select %s i) %s) (= (select %s (select %s i)) i))) :pattern ((select %s i))))",
 		ln.S, pi.S, pi.S, ln.S, pm.S, pi.S, pi.S), SBool})
+	// every element of the input occurs in the output, at the position given by the inverse permutation
+	e.Ctx.Assume(st.PC, Term{fmt.Sprintf("(forall ((j Int)) (! (=> (and (<= 0 j) (< j %s)) (= (select %s (select %s j)) (select %s j))) :pattern ((select %s j))))",
+		ln.S, na.S, pi.S, e.S.SlArr(s).S, e.S.SlArr(s).S), SBool})
 	if es == SInt && isIntLess(e, call) {
 		e.Ctx.Assume(st.PC, Term{fmt.Sprintf("(forall ((i Int) (j Int)) (! (=> (and (<= 0 i) (<= i j) (< j %s)) (<= (select %s i) (select %s j))) :pattern ((select %s i) (select %s j))))", ln.S, na.S, na.S, na.S, na.S), SBool})
 	}
